@@ -31,6 +31,8 @@ CLAIMED["C14"] = ("DESIGN.md#c14", "Lean theorems per type: observe(rebuild(redu
          "Lean 4 proof over reduce/rebuild model + differential correspondence run")
 CLAIMED["C11"] = ("DESIGN.md#c11", "Lean theorems for the overridden methods (astimezone = inTz, replace = create, subtraction, comparison table: different tzinfo objects order by instant, same object by wall clock as datetime defines; partial outside the wall-order region) + differential testing of every stdlib accessor/operator against the native object with the same fields and tzinfo (reported as such); known findings F12b/F21/F22 where 'same as native' and 'instants' conflict",
          "Lean 4 proof over override models + differential run against native classes")
+CLAIMED["C12"] = ("DESIGN.md#c12", "Lean theorems: the nine units are WallUnits (7 consistent week configurations); start_of <= x <= end_of as instants, same unit, the microsecond before/after lies in another unit, idempotence, zone kept, origin independence for every well-formed zone table when the boundary label is ordinary, repeated, or the first/last value of a gap (after the fix); full for fixed offsets, naive values and Dates; sub-day units partial (known finding F11b with Lean counterexamples); correspondence 2.5x10^5 ops x 2 backends; oracle = min/max of the unit's instant set computed from the tz table",
+         "Lean 4 proof over zone-table + calendar model + differential correspondence run")
 NA = {}
 def main():
     props = [json.loads(l) for l in open(os.path.join(ROOT, "properties.jsonl"))]
